@@ -296,6 +296,9 @@ class Model:
             if isinstance(cur, MVars):
                 cur.d[ops[-1][1]] = target
                 return target
+            if isinstance(cur, dict) and ops[-1][0] == '[':
+                cur[ops[-1][1]] = target        # A.name[key]: item assignment on the bound object
+                return target
             raise NotImplementedError('A on non-vars')
         raise NotImplementedError(root)
 
